@@ -1801,14 +1801,37 @@ fn gen_own_writes(rng: &mut Rng) -> Value {
             present = false;
             if rng.chance(1, 3) { json!({"k":"api","op":"remove_opts","fully":true,"key":0,"mode":"async"}) } else { json!({"k":"api","op":"remove","key":0,"mode":"async"}) }
         };
+        let wrote_val = if st["op"] == "write" { st["val"].as_u64() } else { None };
         steps.push(st);
         // looked at straight away by the same caller (async or sync entry points of the same process)
         let m = *rng.pick(&["async", "async", "sync"]);
-        steps.push(match rng.below(4) {
+        steps.push(match rng.below(7) {
             0 => json!({"k":"api","op":"read","key":0,"mode":m}),
             1 => json!({"k":"api","op":"list","mode":"sync"}),
+            2 if wrote_val.is_some() => json!({"k":"api","op":"read","addr":{"val":wrote_val.unwrap_or(0),"algo":"sha256"},"mode":m}),
+            3 if wrote_val.is_some() => json!({"k":"api","op":"exists","addr":{"val":wrote_val.unwrap_or(0),"algo":"sha256"},"mode":m}),
+            4 => json!({"k":"api","op":"copy","key":0,"to":format!("$O/x{}", steps.len()),"mode":m}),
             _ => json!({"k":"api","op":"metadata","key":0,"mode":m}),
         });
+        if rng.chance(1, 6) {
+            // the content (or everything) is deleted and looked for / written again at once
+            let a = json!({"val":rng.below(2),"algo":"sha256"});
+            match rng.below(3) {
+                0 => {
+                    steps.push(json!({"k":"api","op":"remove_hash","addr":a,"mode":"async"}));
+                    steps.push(json!({"k":"api","op":"exists","addr":a,"mode":m}));
+                }
+                1 => {
+                    steps.push(json!({"k":"api","op":"clear","mode":"async"}));
+                    present = false;
+                    steps.push(json!({"k":"api","op":"list","mode":"sync"}));
+                }
+                _ => {
+                    steps.push(json!({"k":"api","op":"write","entry":"write","val":1,"mode":"async"}));
+                    steps.push(json!({"k":"api","op":"read","addr":{"val":1,"algo":"sha256"},"mode":m}));
+                }
+            }
+        }
     }
     let mut post = Vec::new();
     for fl in PURE {
